@@ -35,6 +35,10 @@ BASE = [
     ("timing", "qubit q ; duration d = 10 ns ; delay [ d ] q ; delay [ 1 ] q ;"),
     ("annotation", "int a ; @note~ x y\n a = 1 ; pragma~ keep this\n a = 2 ;"),
     ("bits", 'bit [ 4 ] c = "0110" ; bit b = c [ 0 ] ;'),
+    ("modifiers", "qubit q ; qubit p ; ctrl @ U ( 1 , 2 , 3 ) q , p ; inv @ pow ( 2 ) @ U ( 0 , 0 , 0 ) q ;"),
+    ("io-and-cast", "input int a ; output bit b ; float c = float ( a ) ; b = measure $0 ;"),
+    ("nested-scopes", "int a = 1 ; while ( a =~ = 1 ) { int b = a ; if ( b =~ = 2 ) { int a = b ; b = a ; } a = b ; }"),
+    ("version-first", "OPENQASM~ 3.0 ; int a ; a = 1 ;"),
     ("trailing-annotation", "qubit q ; int a ; @keep~ this\n"),
     ("trailing-pragma", "int a ; pragma~ last line\n"),
     ("scope-fault", "if ( true ) { qubit q ; gate g x { } } return ;"),
